@@ -15,7 +15,7 @@ RESN = ['ALA', 'GLY', 'LYS', 'TRP', 'SER', 'VAL']
 
 def make_world(rng, root, nspecies=None, ninst=(1, 12), order='random', box_kind='rect', with_solvent=True,
                with_vel=False, title=None, end_for=None, multi_res_prob=0.35, small_prob=0.3,
-               unique_grid=False, sizes_hint=None, resid_mode='consecutive', end_extra=None, counts=None, coarsen=False, homopolymer_prob=0.0):
+               unique_grid=False, sizes_hint=None, resid_mode='consecutive', end_extra=None, counts=None, coarsen=False, homopolymer_prob=0.0, multi_res_max=4):
     """Returns a dict describing the world (see keys below)."""
     os.makedirs(root, exist_ok=True)
     counts_in = counts
@@ -31,7 +31,7 @@ def make_world(rng, root, nspecies=None, ninst=(1, 12), order='random', box_kind
             elif r < small_prob:
                 sizes = [int(rng.integers(1, 3))]                       # 1- or 2-bead species
             elif r < small_prob + multi_res_prob:
-                sizes = [int(rng.integers(1, 5)) for _ in range(int(rng.integers(2, 5)))]
+                sizes = [int(rng.integers(1, 5)) for _ in range(int(rng.integers(2, multi_res_max + 1)))]
             else:
                 sizes = [int(rng.integers(3, 9))]
             homo = sizes_hint is None and rng.random() < homopolymer_prob
